@@ -96,7 +96,10 @@ def units():
     from props import c20
     # the covering of the text by PLSSChunker's blocks and the re-attachment of unused blocks by rebuild_sec_within are callee
     # contracts of this property (a block that the chunker loses, or that rebuild_sec_within drops, is text silently dropped)
-    return [_unit(v) for v in ALL_VIEWS] + [_finder_unit()] + borrow(c20._rebuild_units() + c20._chunker_units(), 'C04')
+    from props import c01
+    # ... and what cleanup_desc may cut from a block (only separators and the six connectives, only at the two ends) is C01's
+    return ([_unit(v) for v in ALL_VIEWS] + [_finder_unit()] + borrow(c20._rebuild_units() + c20._chunker_units(), 'C04')
+            + borrow(c01._cleanup_units(), 'C04', keep=lambda u: 'never longer' not in u.name))
 
 
 # ======================================================================================================================
